@@ -12,7 +12,7 @@ from checks.c16 import check_ranking_views, check_dataset_views
 META = {
     "level": "exploration",
     "engine": "hypothesis with the generators' RNG owned by the checker",
-    "rule": "walks: (n, m, steps, complete) in [1..8] x [1..5] x {0,1,2,5,20,100,300} x {T,F}; the names randint and "
+    "rule": "walks: (n, m, steps, complete) in [1..8] x ([1..5] + {6,7,10,13,15,19}) x {0,1,2,5,20,100,300} x {T,F}; the names randint and "
             "shuffle used by corankco.ranking are rebound to functions that follow a Hypothesis-drawn tape, so the "
             "whole Markov walk is the generated schedule (and shrinks); each of the six private moves is wrapped so "
             "that the dense-numbering invariant (ranked entries use exactly the ids 0..k-1, missing entries are -1) "
@@ -29,6 +29,9 @@ META = {
     "budget_s": {"quick": 110, "thorough": 800},
 }
 
+# numbers of rankings beyond the handful every example uses (6, 7, 10, 13, 14, 15, 19 are the first m for which
+# m * (1/m) != 1.0 in floating point)
+M_LARGE = [6, 7, 10, 13, 15, 19]
 MOVES = ["add_left", "add_right", "change_left", "change_right", "remove_element", "put_element_first"]
 
 
@@ -115,8 +118,8 @@ class Patched:
 @st.composite
 def walk_cases(draw, tier):
     n = draw(st.sampled_from(list(range(1, 9))))
-    m = draw(st.sampled_from(list(range(1, 6))))
-    steps = draw(st.sampled_from([0, 1, 2, 5, 20, 100, 300]))
+    m = draw(st.sampled_from(list(range(1, 6)) + M_LARGE))
+    steps = draw(st.sampled_from([0, 1, 2, 5, 20, 100, 300] if m <= 5 else [0, 1, 2, 5, 20]))
     complete = draw(st.booleans())
     tape = draw(st.lists(st.integers(0, 239), min_size=0, max_size=min(2 * steps * m, 60)))
     return {"n": n, "m": m, "steps": steps, "complete": complete, "tape": tape,
@@ -250,8 +253,8 @@ def check_step(case, ctx):
 @st.composite
 def uniform_cases(draw, tier):
     n = draw(st.sampled_from(list(range(1, 10))))
-    m = draw(st.sampled_from(list(range(1, 6))))
-    return {"n": n, "m": m, "tape": draw(st.lists(st.integers(0, 239), max_size=n * m)),
+    m = draw(st.sampled_from(list(range(1, 6)) + M_LARGE))
+    return {"n": n, "m": m, "tape": draw(st.lists(st.integers(0, 239), max_size=min(n * m, 40))),
             "via_dataset": draw(st.booleans())}
 
 
